@@ -315,8 +315,14 @@ pub fn settle(s: &mut Sim, rng: &mut StdRng, sweep: bool) {
             let _ = &rng;
             for t in w {
                 if s.is_woken(&t) {
+                    // (polls that get somewhere - an item yielded, an operation finished, something written - do not count
+                    // towards the guard against tasks that keep waking themselves without progress)
+                    let before = (s.items.values().map(|v| v.len()).sum::<usize>(), s.op_results.len(), s.wire.n_written, s.ctx_results.len());
                     s.poll_task(&t);
-                    polls += 1;
+                    let after = (s.items.values().map(|v| v.len()).sum::<usize>(), s.op_results.len(), s.wire.n_written, s.ctx_results.len());
+                    if before == after {
+                        polls += 1;
+                    }
                 }
             }
             if polls > 3000 {
@@ -513,6 +519,27 @@ pub fn exec_step(s: &mut Sim, rng: &mut StdRng, st: &Value) -> bool {
                 s.emit(json!({"e": "reconnect", "R": p.r.unwrap_or(65535), "M": p.m.unwrap_or(0), "sei": 0, "seik": "zero", "ok": 0}));
             }
             ok
+        }
+        "burn0" => {
+            // n complete, untraced QoS 0 publishes (they carry no packet identifier and must not consume any)
+            let n = st["n"].as_u64().unwrap_or(0);
+            s.quiet = true;
+            let k = 9_000_002usize;
+            for i in 0..n {
+                s.call(k, 0, &json!({"kind": "pub", "qos": 0, "topic": "b", "payload": "x"}));
+                s.poll_op(k);
+                if i % 64 == 63 || i + 1 == n {
+                    s.poll_ctx();
+                }
+                s.poll_op(k);
+                s.forget_op(k);
+            }
+            s.poll_ctx();
+            s.wire.packets.clear();
+            s.wire.raw.clear();
+            s.quiet = false;
+            s.emit(json!({"e": "note", "burn0": n}));
+            true
         }
         "burnsub" => {
             // n complete, untraced subscribe() calls (SUBACK granted, stream dropped at once)
@@ -833,7 +860,13 @@ pub fn walk(p: &Params, cfg: &WalkCfg, seed: u64) -> (Vec<Value>, Vec<String>) {
                             sp["ctype"] = json!("text/x");
                         }
                         if rng.gen_range(0..6) == 0 {
-                            sp["mei"] = json!(60);
+                            sp["mei"] = json!(*choose(&mut rng, &[60u64, 0, 16_777_217, 4_294_967_294]));
+                        }
+                        // the Payload Format Indicator, both values (an explicit 0 is a property like any other)
+                        match rng.gen_range(0..8) {
+                            0 => sp["pfi"] = json!(false),
+                            1 => sp["pfi"] = json!(true),
+                            _ => {}
                         }
                         sp
                     }
